@@ -38,6 +38,8 @@ type JobSpec struct {
 	MaxSteps  int            `json:"max_steps"`
 	Stubs     []string       `json:"stubs"`
 	NoMerge   bool           `json:"no_merge"`
+	Canon8    bool           `json:"canon8"`
+	NoModels  []string       `json:"no_models"`
 	ExpectSat []string       `json:"expect_sat"` // labels that must be violated (vacuity witnesses)
 }
 
@@ -100,6 +102,9 @@ type Config struct {
 	target  string
 	stubs   map[string]modelFn
 	noMerge bool
+	canon8  bool
+	noIndep bool
+	noModel map[string]bool
 }
 
 func (c *Config) isTarget(p *ssa.Package) bool {
@@ -108,7 +113,7 @@ func (c *Config) isTarget(p *ssa.Package) bool {
 
 var interpretable = map[string]bool{
 	"bytes": true, "strings": true, "errors": true, "io": true, "encoding/binary": true, "encoding/hex": true,
-	"strconv": true, "slices": true, "maps": true, "sort": true, "math/bits": true, "unicode/utf8": true, "cmp": true,
+	"strconv": true, "internal/strconv": true, "slices": true, "maps": true, "sort": true, "math/bits": true, "unicode/utf8": true, "cmp": true,
 	"internal/byteorder": true, "internal/stringslite": true, "unicode": false, "math": true, "iter": true,
 	"crypto/subtle": true, "internal/itoa": true,
 }
@@ -132,6 +137,7 @@ func (c *Config) mayInterpret(fn *ssa.Function) bool {
 type workItem struct {
 	job    int
 	prefix []Decision
+	model  map[string]uint64
 }
 
 type scheduler struct {
@@ -323,6 +329,7 @@ func newInterp(prog *ssa.Program, spec *Spec, timeoutMs int) *Interp {
 		globals:  map[*ssa.Global]*Value{},
 		strCache: map[string]*ByteObj{},
 		initDone: map[*ssa.Package]bool{},
+		regions:  map[*ssa.If]*regionInfo{},
 	}
 	it.cfg = &Config{target: spec.Target, stubs: map[string]modelFn{}}
 	it.solver = NewSolver(timeoutMs, spec.Solver)
@@ -380,6 +387,11 @@ func runPath(it *Interp, job *JobSpec, item workItem, sched *scheduler, res *Job
 	it.ctx.ResetPath()
 	it.solver.Reset()
 	it.cfg.noMerge = job.NoMerge
+	it.cfg.canon8 = job.Canon8
+	it.cfg.noModel = map[string]bool{}
+	for _, m := range job.NoModels {
+		it.cfg.noModel[m] = true
+	}
 	it.cfg.stubs = map[string]modelFn{}
 	for _, s := range job.Stubs {
 		if h, ok := namedStubs[s]; ok {
@@ -401,6 +413,16 @@ func runPath(it *Interp, job *JobSpec, item workItem, sched *scheduler, res *Job
 		}()
 		it.ensureInit(pkg)
 	}()
+	it.pcs, it.pcGround = nil, nil
+	it.pcByRoot, it.ufParent = map[int32][]int{}, map[int32]int32{}
+	it.pcByVar = map[int32][]int{}
+	it.model, it.modelOK = item.model, item.model != nil || len(item.prefix) == 0
+	if it.model == nil {
+		it.model = map[string]uint64{}
+	}
+	it.evalMemo = map[*Term]uint64{}
+	it.notes = map[string]Value{}
+	it.newModels = nil
 	it.prefix, it.pos = item.prefix, 0
 	it.decisions = nil
 	it.newWork = nil
@@ -464,7 +486,7 @@ func runPath(it *Interp, job *JobSpec, item workItem, sched *scheduler, res *Job
 	if len(it.newWork) > 0 {
 		items := make([]workItem, len(it.newWork))
 		for i, p := range it.newWork {
-			items[len(items)-1-i] = workItem{job: item.job, prefix: p}
+			items[len(items)-1-i] = workItem{job: item.job, prefix: p, model: it.newModels[i]}
 		}
 		sched.push(items...)
 	}
